@@ -546,6 +546,10 @@ static int analyze_struct(fb_parser_t *P, fb_compound_type_t *ct)
             if (member->type.ct->symbol.kind == fb_is_enum) {
                 type = member->type.ct;
                 size = type->size;
+                if (size < 1) {
+                    /* The enum has no valid underlying type: old error. */
+                    return -1;
+                }
                 member->align = (uint16_t)size;
                 member->size = member->type.len * type->size;
                 break;
